@@ -15,6 +15,8 @@ func (V *Verifier) runExtra(spec *propSpec, name string, res *checkResult) {
 	switch {
 	case strings.HasPrefix(name, "frame:write:"):
 		V.extraWriteFrame(spec, strings.Split(strings.TrimPrefix(name, "frame:write:"), ","), res)
+	case name == "frame:budget-fields":
+		V.extraBudgetFields(spec, res)
 	case name == "table:peg":
 		V.extraPegTable(spec, res)
 	case name == "read:no-struct-content":
@@ -276,4 +278,73 @@ func (V *Verifier) extraPegTable(spec *propSpec, res *checkResult) {
 	res.bounded["programs"] = 1
 	res.bounded["disagreements_checked"] = len(fs)
 	res.bounded["table"] = stats
+}
+
+// extraBudgetFields (C11): the step counter is written only by the increment
+// in parseExpr, the budget only by newParser and the MaxExpressions option,
+// the Stats pointer only by newParser; the budget is read only where it is
+// set and at the guard in parseExpr. With these, two parses of the same input
+// under different budgets are step-for-step identical until a guard fires
+// (lock-step lemma, spec/C11.md).
+func (V *Verifier) extraBudgetFields(spec *propSpec, res *checkResult) {
+	writers := map[string]map[string]bool{
+		"grammar.Stats.ExprCnt":     {"grammar.parser.parseExpr": true},
+		"grammar.parser.maxExprCnt": {"grammar.newParser": true, "grammar.MaxExpressions$1": true},
+		"grammar.parser.Stats":      {"grammar.newParser": true},
+	}
+	readers := map[string]map[string]bool{
+		"grammar.parser.maxExprCnt": {"grammar.newParser": true, "grammar.MaxExpressions$1": true, "grammar.parser.parseExpr": true},
+		"grammar.Stats.ExprCnt":     {"grammar.parser.parseExpr": true, "grammar.ParseCounted": true},
+	}
+	n := 0
+	for _, k := range sortedFuncKeys(V.P.Funcs) {
+		if !strings.HasPrefix(k, "grammar.") {
+			continue
+		}
+		f := V.P.Funcs[k]
+		for _, b := range f.Blocks {
+			for _, in := range b.Instrs {
+				switch in := in.(type) {
+				case *ssa.Store:
+					if fa, ok := in.Addr.(*ssa.FieldAddr); ok {
+						key := describeAddr(V, fa)
+						if ws, tracked := writers[key]; tracked {
+							n++
+							res.extraObls = append(res.extraObls, decided(fmt.Sprintf("%s#frame:budget-write:%s@%d", k, key, n), "frame", ws[k],
+								fmt.Sprintf("%s is written in %s; the budget argument allows writes only in %v", key, k, keysOf(ws)), in.Pos()))
+						}
+					}
+					// whole-struct stores of parser / Stats values
+					ts := in.Val.Type().String()
+					if strings.HasSuffix(ts, "grammar.parser") || strings.HasSuffix(ts, "grammar.Stats") {
+						_, fresh := rootOf(in.Addr).(*ssa.Alloc)
+						n++
+						res.extraObls = append(res.extraObls, decided(fmt.Sprintf("%s#frame:budget-struct-store@%d", k, n), "frame", fresh && (k == "grammar.newParser"),
+							"a whole parser/Stats value is stored (would overwrite the counter or the budget)", in.Pos()))
+					}
+				case *ssa.UnOp:
+					if in.Op == token.MUL {
+						if fa, ok := in.X.(*ssa.FieldAddr); ok {
+							key := describeAddr(V, fa)
+							if rs, tracked := readers[key]; tracked {
+								n++
+								res.extraObls = append(res.extraObls, decided(fmt.Sprintf("%s#frame:budget-read:%s@%d", k, key, n), "frame", rs[k],
+									fmt.Sprintf("%s is read in %s; the lock-step argument allows reads only in %v", key, k, keysOf(rs)), in.Pos()))
+							}
+						}
+					}
+				}
+			}
+		}
+	}
+	res.bounded["budget_field_sites"] = n
+}
+
+func keysOf(m map[string]bool) []string {
+	var ks []string
+	for k := range m {
+		ks = append(ks, k)
+	}
+	sort.Strings(ks)
+	return ks
 }
